@@ -67,7 +67,19 @@ fn check(c: &Case, st: &mut Stats) -> Result<(), String> {
             buf
         }};
     }
+    // the encapsulator the descriptions are compared with: re-use disabled (every label is written),
+    // but only after it has already sent the description's own label with re-use on, so that a label
+    // memory surviving the switch-off would show
     let mut enc = new_enc();
+    let own_label = match &c.d {
+        Desc::Complete { lab, .. } | Desc::First { lab, .. } if lab.is_addr() => Some(*lab),
+        _ => None,
+    };
+    if let (Some(l), true) = (own_label, c.slack % 2 == 1) {
+        let mut b = [0u8; 32];
+        let _ = call_encap(&mut enc, b"x", 0, 0x0800, l, &mut b);
+        st.class("encapsulator-knew-the-label-before-disable");
+    }
     enc.disable_re_use_label();
     let nt;
     match &c.d {
@@ -279,7 +291,7 @@ pub fn property() -> Property {
             fuzz_decode: Some(crate::fuzzdec::c20_case),
             strategy,
             check,
-            required_classes: &["complete", "first", "first-compared-with-encap", "intermediate", "end"],
+            required_classes: &["complete", "first", "first-compared-with-encap", "intermediate", "end", "encapsulator-knew-the-label-before-disable"],
         })],
     }
 }
